@@ -80,6 +80,8 @@ def run_pass(rules, slots, feat):
                 for a in acts:
                     if a[0] == 'copy':          # the whole slot (glyph and attributes) is copied from the input slot k items away; never used on attached slots
                         t = slots[pos]; t.gid, t.adv, t.shift, t.user, t.user1 = snap[p + bj + a[1]]
+                    elif a[0] == 'subsref':          # PUT_SUBS with a slot reference: the class index is taken from the INPUT glyph of the slot k items away
+                        g = snap[p + bj + a[1]][0]; t = slots[pos]; t.gid = CLASSES[a[3]][CLASSES[a[2]].index(g)]; t.adv = ADV[t.gid]
                     elif a[0] == 'insert':
                         n = S(CLASSES[a[1]][0]); slots.insert(pos, n); pos += 1
                     elif a[0] == 'glyph': slots[pos].gid = CLASSES[a[1]][0]; slots[pos].adv = ADV[slots[pos].gid]
@@ -141,6 +143,7 @@ def compile_rule(rule):
             elif a[0] == 'insert': code += A('INSERT', 'PUT_GLYPH', 0, a[1], 'NEXT')
             elif a[0] == 'glyph': code += A('PUT_GLYPH', 0, a[1])
             elif a[0] == 'subs': code += A('PUT_SUBS', 0, 0, a[1], 0, a[2])
+            elif a[0] == 'subsref': code += A('PUT_SUBS', a[1] & 0xFF, 0, a[2], 0, a[3])
             elif a[0] == 'delete': deleted = True
             elif a[0] == 'adv': code += push(a[1]) + A('ATTR_SET', SLAT['advX'])
             elif a[0] == 'advadd': code += push(a[1]) + A('ATTR_ADD', SLAT['advX'])
@@ -315,6 +318,15 @@ def family_programs(tier):
                 ps = ([dict(rules=[mark])] if mark is not None else []) + [dict(rules=[cp])] + ([dict(rules=[test])] if mark is not None else [])
                 if mark is None and ti: continue
                 yield dict(kind='copy', passes=ps, rtl=0, ids=(mi, ci, ti))
+    # a base that already carries an attached mark is CHANGED by a later rule whose next item REFERENCES it (the loader plants a temporary copy of the base for the
+    # duration of the rule): the mark must stay attached, at the same offsets
+    att1 = LRule([], [(IABCD, []), (IM, [('attach', 120, 300)])]); att2 = LRule([], [(IABCD, []), (IM, [('attach', 120, 300)]), (IM, [('attach2', 60, 200)])])
+    chg = [LRule([], [(IA, [('glyph', OX)]), (IM, [('subsref', -1, IA, OM)])]), LRule([], [(IA, [('glyph', OX)]), (IM, []), (IM, [('subsref', -2, IA, OM)])]),
+           LRule([], [(IA, [('glyph', OX), ('shift', 15)]), (IM, [('subsref', -1, IA, OM), ('user', 4)])])]
+    t_att = [[0x61, 0x6D], [0x62, 0x61, 0x6D], [0x61, 0x6D, 0x6D], [0x61, 0x61, 0x6D], [0x62, 0x6D, 0x6D, 0x61]]
+    for ai, a1 in enumerate((att1, att2)):
+        for ci, c1 in enumerate(chg):
+            yield dict(kind='changed_ref_attached', passes=[dict(rules=[a1], positioning=True), dict(rules=[c1], positioning=True)], rtl=0, ids=(ai, ci), texts=t_att)
     # re-attachment: two marks are attached to a base by one positioning pass, a second positioning pass moves the first mark to the slot before the base;
     # the base must keep (and position) its other mark
     mm = [[0x61, 0x62, 0x6D, 0x6D], [0x62, 0x6D, 0x6D], [0x61, 0x61, 0x62, 0x6D, 0x6D], [0x61, 0x62, 0x6D], [0x61, 0x62, 0x6D, 0x6D, 0x63]]
